@@ -254,7 +254,7 @@ class Parser:
                 stmts.append(("expr", e))
             elif self.at("}"):
                 tail = e
-            elif e[0] in ("if", "iflet", "match", "block", "unsafe", "loop", "while", "for", "return", "break"):
+            elif e[0] in ("if", "iflet", "match", "block", "unsafe", "loop", "while", "whilelet", "for", "return", "break", "continue"):
                 stmts.append(("expr", e))
             else:
                 raise Unsupported("statement not terminated near token %d (%r)" % (self.i, self.peek()[1]))
@@ -435,7 +435,12 @@ class Parser:
             return ("for", pat, it, self.block())
         if v == "while":
             self.eat()
-            if self.at("let"): raise Unsupported("while let")
+            if self.at("let"):
+                self.eat("let")
+                pat = self.pattern()
+                self.eat("=")
+                scrut = self.expr(nostruct=True)
+                return ("whilelet", pat, scrut, self.block())
             cond = self.expr(nostruct=True)
             return ("while", cond, self.block())
         if v == "continue":
@@ -516,6 +521,10 @@ def effectful(node):
         return any(effectful(x) for x in node)
     if isinstance(node, list): return any(effectful(x) for x in node)
     return False
+
+
+class LoopBreak(Exception):
+    """`break` reached while a loop handler executes one iteration"""
 
 
 class Panics(Exception):
@@ -972,6 +981,10 @@ class Sym:
                 return ("unit",)
             if self.while_handler is None: raise Unsupported("while loop without a loop summary")
             return self.while_handler(self, env, e)
+        if k == "whilelet":
+            if self.while_handler is None: raise Unsupported("while-let loop without a loop summary")
+            return self.while_handler(self, env, e)
+        if k == "break": raise LoopBreak()
         if k == "loop": return self.loop(e, env)
         if k == "for": return self.forloop(e, env)
         if k == "call":
